@@ -10,7 +10,8 @@ RULE = ("seeded swarm of account histories (prior holdings reached through rando
         "number-of-contract measures; no threshold); post-condition checked after every rebalance against the exact "
         "ledger: pos x mult x execution-side quote == w x NLV_pre, untargeted holdings closed, nr-contract targets exact; "
         "in frictionless runs also weights == w, NLV unchanged and an immediate second rebalance trades nothing of "
-        "economic size. Non-trivial: >=1 rebalance with >=1 trade and >=1 probe; distinct abstract traces among those")
+        "economic size. One run in six goes through the environment: actions of continuous and discrete portfolio spaces in "
+        "weights or number-of-contract mode must be reached by the step that executes them. Non-trivial: >=1 rebalance with >=1 trade and >=1 probe; distinct abstract traces among those")
 ASSUMPTIONS = [
     "no trade threshold, fractional trading (threshold and whole lots are C12)",
     "targets whose size is below 1e-4 contracts are not judged (Broker.transact documents flattening of |q| < 1e-7)",
@@ -19,7 +20,8 @@ ASSUMPTIONS = [
 COMPONENTS = {"real": ["Exchange", "Broker", "Rebalancing", "Weights/NrContracts", "Trade", "BrokerFees", "contracts"],
               "harness": ["user-defined AbstractContract subclasses", "Fraction ledger"], "stub": []}
 PROBE_FLOORS = {"flip_by_rebalance": 30, "leveraged_target": 30, "target_margined_and_spot": 30,
-                "frictionless_rebalance": 30, "second_identical_rebalance": 10}
+                "frictionless_rebalance": 30, "second_identical_rebalance": 10,
+                "env_level_target_checked": 300, "env_fractional_contract_target_reached": 20}
 
 PROFILE = {
     "oracles": ["c03"],
@@ -31,14 +33,23 @@ PROFILE = {
 
 
 def generate(rng, i):
+    if i % 6 == 5:
+        from tesim.props import c03_epi
+        return c03_epi.generate(rng, i)
     return gen_acct.generate(rng, PROFILE)
 
 
 def execute(scenario):
+    if scenario.get("kind") == "epi":
+        from tesim.props import c03_epi
+        return c03_epi.execute(scenario)
     return acct.execute(scenario, PROP)
 
 
 def describe(scenario):
+    if scenario.get("kind") == "epi":
+        from tesim import gen_epi
+        return gen_epi.describe(scenario)
     return gen_acct.describe(scenario)
 
 
@@ -46,4 +57,11 @@ def shrink_paths(scenario):
     return [("script",)]
 
 
-from tesim.props.c01 import simplify  # noqa: E402,F401
+from tesim.props.c01 import simplify as _simplify_acct  # noqa: E402
+
+
+def simplify(scenario):
+    if scenario.get("kind") == "epi":
+        return
+    for c in _simplify_acct(scenario):
+        yield c
